@@ -289,7 +289,8 @@ def rule_r3(ctx: Ctx) -> None:
         try:
             call_fn(ctx, fn, [defs], hook=hook, keep=tuple(fn.module.functions))
         except Raised as r:
-            raise AnalysisError("%s raised %s over compatible abstract definitions" % (fn.short, r.cls_name))
+            bad.append({"raised over definitions that are compatible": r.cls_name, "definitions": ["%s.%d.%d" % (nm, ma, mi) for nm, ma, mi in spec[rot:] + spec[:rot]]})
+            continue
         except Unfoldable as ex:
             raise AnalysisError("%s: cannot evaluate over abstract definitions: %s" % (fn.short, ex))
         got = set()
